@@ -38,6 +38,20 @@ TERM_EMBED = {("JoinOn", "criterion"): {"subquery": True}, ("Join", "item"): {"s
               ("ContainsCriterion", "container"): {"subquery": True}}
 
 
+
+def _refined(v):
+    """`x if x is True else True` is True: under the test the tested value is the constant it was compared with"""
+    from ..symex import Phi, Sym
+    if isinstance(v, Phi):
+        a, b, c = _refined(v.a), _refined(v.b), v.cond
+        if isinstance(c, Sym) and c.kind == "op" and c.args[0] in ("is", "==") and isinstance(c.args[2], Const) and show(c.args[1]) == show(a):
+            a = c.args[2]
+        if isinstance(c, Sym) and c.kind == "op" and c.args[0] in ("is not", "!=") and isinstance(c.args[2], Const) and show(c.args[1]) == show(b):
+            b = c.args[2]
+        if a == b:
+            return a
+    return v
+
 def check(program: Program, run: Run) -> None:
     run.explanation = (
         "Context-flow over the statement skeletons of the six builder classes, _SetOperation and CreateQueryBuilder: the "
@@ -80,6 +94,10 @@ def check(program: Program, run: Run) -> None:
         for flag in POSITION_FLAGS:
             v = s["ctx"].fields[flag]
             leak = isinstance(v, (Inh, InhOr))
+            if leak and flag == "with_namespace" and fcls == "_SetOperation" and ra in ("base_query", "_set_operation"):
+                # the operands of a set operation are statements: each recomputes its namespace decision at entry
+                # (this rule, applied to the builders' own clause slots), so what they are handed does not reach a clause
+                leak = False
             key = f"C10/flag-leak:{s['func']}:{ra}:{flag}"
             if key in seen:
                 continue
@@ -197,7 +215,7 @@ def check(program: Program, run: Run) -> None:
         for flag, want in req.items():
             v = s["ctx"].fields[flag]
             vals = delivered_to_joins.get(flag, {v}) if (fcls in join_names and isinstance(v, Inh) and v.name == flag) else {v}
-            ok = all(x == Const(want) for x in vals)
+            ok = all(_refined(x) == Const(want) for x in vals)
             run.ob("C10/R3 embedding site passes the flag its position needs", f"{s['func']}:{s['recv']}:{flag}={want}", ok, detail=show(v)[:60], where=where)
             if not ok:
                 run.finding(f"C10/embed-flag:{s['func']}:{ra}:{flag}", f"{s['func']} renders `{s['recv']}` with {flag}={show(v)[:40]} (position needs {want}): "
